@@ -65,6 +65,8 @@ type awaited struct {
 func (r *run) releaseAll() {
 	r.closeOnce(2, r.stallRelease)
 	r.closeOnce(3, r.outRelease)
+	r.closeOnce(6, r.genHold)
+	r.closeOnce(7, r.redGo)
 	select {
 	case <-r.abort:
 	default:
@@ -73,6 +75,11 @@ func (r *run) releaseAll() {
 }
 
 func (r *run) await(done <-chan outcome) awaited {
+	if r.p.Inflight {
+		if o, ok := r.driveInflight(done); ok {
+			return awaited{waitRes: waitRes{o: o, returned: true}}
+		}
+	}
 	if r.p.Kind == kOutlive {
 		t := time.NewTimer(watchdog)
 		select {
